@@ -32,6 +32,10 @@ def run(ctx):
     ctx.run_rule("R2-mark-amount", r2_amount, F)
     ctx.run_rule("R3-flag-wrappers", r3_wrappers, F)
     ctx.run_rule("R4-dirty-walk", r4_walk, F)
+    ctx.floor('R1-raw-exposure', 3)
+    ctx.floor('R2-mark-amount', 4)
+    ctx.floor('R3-flag-wrappers', 9)
+    ctx.floor('R4-dirty-walk', 3)
     A = ctx.facts("A", required=False)
     if A is not None:
         ctx.run_rule("R2-mark-amount-async", r2_async, A)
